@@ -121,14 +121,14 @@ def build(doc, extras=None):
     rels = [('rId1', RT + 'styles', 'styles.xml'), ('rId2', RT + 'settings', 'settings.xml')]
     ct = [CT_HEAD]; files = {}
     sect = ''
-    for k, s in enumerate(headers[:1]):
-        rels.append(('rId10', RT + 'header', 'header1.xml')); sect += '<w:headerReference w:type="default" r:id="rId10"/>'
-        files['word/header1.xml'] = '<?xml version="1.0" encoding="UTF-8" standalone="yes"?><w:hdr %s>%s</w:hdr>' % (NS, ''.join(block_xml(b, table) for b in s['blocks']))
-        ct.append('<Override PartName="/word/header1.xml" ContentType="%sheader+xml"/>' % WML)
-    for k, s in enumerate(footers[:1]):
-        rels.append(('rId11', RT + 'footer', 'footer1.xml')); sect += '<w:footerReference w:type="default" r:id="rId11"/>'
-        files['word/footer1.xml'] = '<?xml version="1.0" encoding="UTF-8" standalone="yes"?><w:ftr %s>%s</w:ftr>' % (NS, ''.join(block_xml(b, table) for b in s['blocks']))
-        ct.append('<Override PartName="/word/footer1.xml" ContentType="%sfooter+xml"/>' % WML)
+    n_hf = 0
+    for kind, lst, tag, rt, ctype, root in ((0, headers, 'headerReference', 'header', 'header+xml', 'hdr'), (2, footers, 'footerReference', 'footer', 'footer+xml', 'ftr')):
+        for s in lst[:2]:
+            n_hf += 1; rid = 'rId%d' % (9 + n_hf); fn = '%s%d.xml' % (rt, n_hf)
+            rels.append((rid, RT + rt, fn)); sect += '<w:%s w:type="%s" r:id="%s"/>' % (tag, s.get('hf', 'default'), rid)
+            files['word/' + fn] = '<?xml version="1.0" encoding="UTF-8" standalone="yes"?><w:%s %s>%s</w:%s>' % (root, NS, ''.join(block_xml(b, table) for b in s['blocks']), root)
+            ct.append('<Override PartName="/word/%s" ContentType="%s%s"/>' % (fn, WML, ctype))
+    if doc.get('titlePg') or any(s.get('hf') == 'first' for s in stories if not s.get('no_titlepg')): sect += '<w:titlePg/>'
     files['word/document.xml'] = ('<?xml version="1.0" encoding="UTF-8" standalone="yes"?><w:document %s><w:body>%s<w:sectPr>%s<w:pgSz w:w="12240" w:h="15840"/></w:sectPr></w:body></w:document>'
                                   % (NS, ''.join(block_xml(b, table) for b in body['blocks']), sect))
     if doc.get('comments') or extras.get('force_comments_part'):
@@ -250,16 +250,20 @@ def read(b, table=None):
             rels[r.get('Id')] = (r.get('Type'), r.get('Target'))
     heads = []; foots = []
     for sect in body.iter(q('sectPr')):
+        title = sect.find(q('titlePg')) is not None
+        refs = {}
         for ref in sect:
             loc = etree.QName(ref).localname
-            if loc in ('headerReference', 'footerReference') and ref.get(q('type')) == 'default':
+            if loc in ('headerReference', 'footerReference'):
                 tgt = rels.get(ref.get('{%s}id' % R))
-                if tgt:
-                    (heads if loc == 'headerReference' else foots).append('word/' + tgt[1])
+                if tgt: refs[(loc, ref.get(q('type')))] = 'word/' + tgt[1]
+        for loc, lst in (('headerReference', heads), ('footerReference', foots)):
+            if (loc, 'default') in refs: lst.append((refs[(loc, 'default')], 'default'))
+            if title and (loc, 'first') in refs: lst.append((refs[(loc, 'first')], 'first'))
     stories = []
-    for h in heads: stories.append({'kind': 0, 'blocks': rd.blocks(etree.fromstring(z.read(h))), 'part': h})
+    for h, t in heads: stories.append({'kind': 0, 'blocks': rd.blocks(etree.fromstring(z.read(h))), 'part': h, 'hf': t})
     stories.append({'kind': 1, 'blocks': rd.blocks(body), 'part': 'word/document.xml'})
-    for f in foots: stories.append({'kind': 2, 'blocks': rd.blocks(etree.fromstring(z.read(f))), 'part': f})
+    for f, t in foots: stories.append({'kind': 2, 'blocks': rd.blocks(etree.fromstring(z.read(f))), 'part': f, 'hf': t})
     comments = read_comments(z)
     return {'stories': stories, 'comments': comments, 'next_uid': rd.uid + 1000, 'rpr_table': rd.table}
 
